@@ -1051,6 +1051,11 @@ func autoTableLayout(context *layoutContext, box_ Box, containingBlock bo.Point)
 func tableWrapperWidth(context *layoutContext, wrapper_ Box, containingBlock bo.MaybePoint) {
 	wrapper := wrapper_.Box()
 	table := wrapper.GetWrappedTable()
+	if table == nil {
+		// a wrapper copied without its children (root box of a blank page):
+		// there is no table to size
+		return
+	}
 	resolvePercentages(table, containingBlock, 0)
 
 	if table.Box().Style.GetTableLayout() == "fixed" && table.Box().Width != pr.AutoF {
